@@ -14,7 +14,7 @@ use crate::producer::{Gen, ProdCfg};
 use crate::props::c03;
 use crate::real::{Event, Recorder};
 use crate::rng::Rng;
-use crate::snapshot::snap;
+use crate::snapshot::{snap, Cat};
 use rspirv::binary::{parse_bytes, Assemble, Consumer, ParseAction, ParseState};
 use rspirv::dr;
 use serde::{Deserialize, Serialize};
@@ -44,6 +44,30 @@ pub struct C10;
 
 const WEIRD_WIDTHS: &[u32] = &[0, 1, 7, 24, 33, 48, 63, 65, 128, 0x8000_0000];
 
+/// every opcode that defines a typed value (result type + result id, no context-dependent literal of its own)
+fn value_defining_opcodes() -> &'static Vec<u16> {
+    static V: std::sync::OnceLock<Vec<u16>> = std::sync::OnceLock::new();
+    V.get_or_init(|| {
+        let s = snap();
+        s.insts
+            .iter()
+            .filter(|g| {
+                g.operands.iter().any(|(k, _)| s.cat(*k) == Cat::IdResultType)
+                    && g.operands.iter().any(|(k, _)| s.cat(*k) == Cat::IdResult)
+                    && !g.operands.iter().any(|(k, _)| matches!(s.cat(*k), Cat::LitCtx | Cat::LitSpecOp | Cat::PairLitId))
+            })
+            .map(|g| g.opcode)
+            .collect()
+    })
+}
+
+/// instructions that are none of the three kinds the statement names ("decided solely by the type declarations"):
+/// mode-setting and structural ones, which a parser might be tempted to key behaviour on
+const BYSTANDERS: &[&str] = &[
+    "Capability", "Capability", "Extension", "ExtInstImport", "MemoryModel", "EntryPoint", "ExecutionMode", "Source", "SourceExtension", "Name",
+    "Decorate", "Function", "Label", "FunctionEnd", "Nop", "Line", "NoLine", "Return", "Branch", "TypeVoid", "TypeBool", "TypeVector", "TypePointer",
+];
+
 fn gen_history(rng: &mut Rng, id_base: u32, conflicting_with: Option<&Stream>) -> Stream {
     let s = snap();
     let mut cfg = ProdCfg::parser_default(rng);
@@ -57,7 +81,19 @@ fn gen_history(rng: &mut Rng, id_base: u32, conflicting_with: Option<&Stream>) -
     let mut forward: Vec<(u32, bool, u32)> = vec![]; // declared later
     // when building the conflicting "other" stream, reuse the main stream's ids with different widths
     let mut reuse: Vec<u32> = conflicting_with.map(|m| m.insts.iter().filter_map(|i| i.rid).collect()).unwrap_or_default();
+    let bystanders = g.rng.chance(1, 2);
     for _ in 0..n {
+        if bystanders && g.rng.chance(1, 5) {
+            // an instruction of another kind in between (any opcode of the grammar, biased to mode-setting ones)
+            let op = if g.rng.chance(2, 3) { s.op(*g.rng.pick(BYSTANDERS)) } else { s.insts[g.rng.below(s.insts.len() as u64) as usize].opcode };
+            let i = g.inst(op);
+            if let Some(rid) = i.rid {
+                if i.rtype.is_some() {
+                    value_ids.push(rid);
+                }
+            }
+            insts.push(i);
+        }
         match g.rng.below(10) {
             0..=2 => {
                 // type declaration
@@ -93,6 +129,16 @@ fn gen_history(rng: &mut Rng, id_base: u32, conflicting_with: Option<&Stream>) -
                     type_ids.push(i.rid.unwrap());
                     insts.push(i);
                 }
+            }
+            3..=4 if g.rng.chance(1, 2) => {
+                // value definition by ANY value-defining opcode of the grammar; id operands come from the ids of the
+                // history (types and typed values), so "operands that happen to be typed" conjunctions occur
+                let op = *g.rng.pick(value_defining_opcodes());
+                let i = g.inst(op);
+                if let Some(rid) = i.rid {
+                    value_ids.push(rid);
+                }
+                insts.push(i);
             }
             3..=4 => {
                 // value definition carrying a type forward through its result type
